@@ -4,4 +4,5 @@ package checks
 import (
 	_ "verif/checks/c01"
 	_ "verif/checks/c02"
+	_ "verif/checks/c05"
 )
